@@ -91,6 +91,8 @@ package analysis
 //@   at call cgExp#0 before assert[positional-value-is-walked] arg1 == valExp && isnil(keyExp)
 //@   at call cgExp#1 before assert[key-is-walked] arg1 == keyExp
 //@   at call cgExp#2 before assert[keyed-value-is-walked] arg1 == valExp && hits("cgExp#1") >= 1
+//@   loop range:node.KeyExps invariant hits("cgExp#0") + hits("cgExp#2") == rangeindex + 1 && rangeindex + 1 <= len(node.KeyExps)
+//@   ensures[all-values-are-walked] hits("cgExp#0") + hits("cgExp#2") == len(node.KeyExps)
 //@   unchecked typeinv:VarInfo.0(parentVar)#0 members are added by InsertSubMember (not under contract) with the freshly created, non-nil subVar only; the member map is havocked by the calls in between
 //@ end
 
@@ -179,6 +181,8 @@ package analysis
 //@   loop range:node.Exps#1 step [every-condition-and-block-is-walked] hits("cgExp#0") == prev(hits("cgExp#0")) + 1 && hits("cgBlock#0") == prev(hits("cgBlock#0")) + 1
 //@   at call cgExp#0 before assert[condition-is-walked] arg1 == exp
 //@   at call cgBlock#0 before assert[block-is-walked-in-its-own-scope] arg1 == node.Blocks[i] && a.curScope == subScope
+//@   loop range:node.Exps#1 invariant hits("cgExp#0") == rangeindex + 1 && hits("cgBlock#0") == rangeindex + 1 && rangeindex + 1 <= len(node.Exps)
+//@   ensures[all-branches-are-walked] hits("cgExp#0") == len(node.Exps) && hits("cgBlock#0") == len(node.Exps)
 //@   at call CreateScopeInfo#0 before assert[branch-scope-has-the-range-of-its-block] arg2 == node.Blocks[i].Loc && arg0 == scope
 //@ end
 
